@@ -84,6 +84,53 @@ fn check_header(hd: &HeaderDesc, out: &mut CaseOut) -> Option<(vcf::Header, Stri
     if hd.has_explicit_idx() {
         out.count("headers_with_explicit_idx", 1);
     }
+    {
+        use genvcf::OtherLine;
+        let mut keys: Vec<&str> = Vec::new();
+        for l in &hd.others {
+            if !keys.contains(&l.key()) {
+                keys.push(l.key());
+            }
+        }
+        for k in keys {
+            let pos: Vec<usize> = hd.others.iter().enumerate().filter(|(_, l)| l.key() == k).map(|(i, _)| i).collect();
+            let lines: Vec<&OtherLine> = pos.iter().map(|i| &hd.others[*i]).collect();
+            if lines.len() < 2 {
+                continue;
+            }
+            if let OtherLine::Unstructured { .. } = lines[0] {
+                let mut best = 0;
+                let mut adjacent = false;
+                let mut separated = false;
+                for (a, la) in lines.iter().enumerate() {
+                    let same: Vec<usize> = (0..lines.len()).filter(|b| lines[*b] == *la).collect();
+                    best = best.max(same.len());
+                    for b in &same {
+                        if *b > a {
+                            if pos[*b] == pos[a] + 1 { adjacent = true } else { separated = true }
+                        }
+                    }
+                }
+                if best >= 2 {
+                    out.count(&format!("headers_other_unstructured_equal_copies[{}]", if best >= 3 { "3+" } else { "2" }), 1);
+                    if adjacent {
+                        out.count("headers_other_unstructured_equal_copies[adjacent]", 1);
+                    }
+                    if separated {
+                        out.count("headers_other_unstructured_equal_copies[separated]", 1);
+                    }
+                }
+                if lines.iter().any(|l| *l != lines[0]) {
+                    out.count("headers_other_unstructured_same_key_distinct_values", 1);
+                }
+            } else {
+                let f = |l: &OtherLine| if let OtherLine::Structured { fields, .. } = l { fields.clone() } else { vec![] };
+                if lines.iter().skip(1).any(|l| f(l) == f(lines[0])) {
+                    out.count("headers_other_structured_equal_fields", 1);
+                }
+            }
+        }
+    }
     // (ii) the emitted text, read by the independent splitter
     let mut reported: BTreeSet<String> = BTreeSet::new();
     match header_from_text(&text) {
@@ -109,6 +156,27 @@ fn check_header(hd: &HeaderDesc, out: &mut CaseOut) -> Option<(vcf::Header, Stri
             let d: Vec<_> = diff_headers(hd, &header_desc_of(&h2)).into_iter().filter(|x| !reported.contains(&x.0)).collect();
             if !d.is_empty() {
                 out.violation(format!("header-roundtrip-ne:{}", aspect_class(&d)), format!("parse(write(header)) differs: {:?}\n{}", &d[..d.len().min(4)], text));
+            }
+            // write -> parse -> write is a fixed point
+            let again = guard::catch(|| {
+                let mut w = vcf::io::Writer::new(Vec::new());
+                w.write_header(&h2).map(|_| w.into_inner())
+            });
+            match again {
+                Err(p) => out.violation(format!("panic:{}", p.sig), format!("write_header(parsed header) panicked: {}", p.message)),
+                Ok(Err(e)) => out.violation(format!("header-rewrite-rejected:{}", io_err_class(&e)), format!("{e:?}\n{text}")),
+                Ok(Ok(t2)) => {
+                    out.count("headers_write_parse_write", 1);
+                    if t2 != text.as_bytes() && d.is_empty() {
+                        let t2s = String::from_utf8_lossy(&t2).to_string();
+                        let (l1, l2): (Vec<&str>, Vec<&str>) = (text.lines().collect(), t2s.lines().collect());
+                        let i = l1.iter().zip(&l2).position(|(a, b)| a != b).unwrap_or(l1.len().min(l2.len()));
+                        let line = l1.get(i).or(l2.get(i)).copied().unwrap_or("");
+                        let key = line.strip_prefix("##").and_then(|r| r.split('=').next()).unwrap_or("column-line");
+                        let cls = if ["fileformat", "INFO", "FILTER", "FORMAT", "ALT", "contig", "column-line"].contains(&key) { key.to_string() } else if line.contains("=<") { "other-structured".into() } else { "other-unstructured".into() };
+                        out.violation(format!("header-write-parse-write-not-a-fixed-point:{cls}"), format!("{} vs {} lines, first difference at line {i}: {:?} vs {:?}\n{text}", l1.len(), l2.len(), l1.get(i), l2.get(i)));
+                    }
+                }
             }
         }
     }
@@ -817,6 +885,32 @@ fn corpus() -> Vec<(HeaderDesc, Vec<RecDesc>)> {
         recs.push(gen_rich_record(&mut rng, &h, &ro));
     }
     let mut out = vec![(h.clone(), recs)];
+    // repeated and same-key "other" lines, any fileformat
+    for minor in 2..=5u32 {
+        use genvcf::OtherLine::{Structured, Unstructured};
+        let mut hv = h.clone();
+        hv.fileformat = (4, minor);
+        let un = |k: &str, v: &str| Unstructured { key: k.into(), value: v.into() };
+        hv.others = vec![
+            un("annotateCommand", "x"),
+            un("annotateCommand", "x"),
+            un("cmdline", "tool run"),
+            un("history", "one"),
+            un("fileDate", "20240131"),
+            un("cmdline", "tool run"),
+            un("history", "two"),
+            Structured { key: "annotation".into(), id: "a1".into(), fields: vec![("Tool".into(), "vep".into())] },
+            un("cmdline", "tool run"),
+            un("history", "one"),
+            Structured { key: "annotation".into(), id: "a2".into(), fields: vec![("Tool".into(), "vep".into())] },
+        ];
+        if minor >= 3 {
+            for id in ["Organ", "Stage"] {
+                hv.others.push(Structured { key: "META".into(), id: id.into(), fields: vec![("Type".into(), "String".into()), ("Number".into(), ".".into()), ("Values".into(), "[A, B]".into())] });
+            }
+        }
+        out.push((hv, vec![base_for_gt.clone()]));
+    }
     // ploidy 3 / 4 genotypes with every order of `/` and `|` separators under every fileformat
     for minor in 2..=5u32 {
         let mut hv = h.clone();
@@ -886,7 +980,10 @@ fn run_case(c: &Case) -> CaseOut {
         "records" => {
             let mut rng = Rng::new(c.seed, 0xC09, 1);
             let ho = HeaderOpts { fileformat: c.fileformat, max_samples: if c.seed % 7 == 0 { 40 } else { 6 }, idx: c.idx, model: c.model, extras: true, min_contig_len: None, v45_numbers: true };
-            let hd = gen_header(&mut rng, &ho);
+            let mut hd = gen_header(&mut rng, &ho);
+            if c.seed % 3 == 0 {
+                genvcf::add_other_line_variants(&mut Rng::new(c.seed, 0xC09, 77), &mut hd);
+            }
             let ro = RecOpts { model: c.model, nan: true, invalid_ints: false, rare: 14 };
             // every batch carries "rich record, minimal record, rich record" runs (stale state of reused
             // buffers shows only on such neighbours)
@@ -916,7 +1013,10 @@ fn run_case(c: &Case) -> CaseOut {
             for i in 0..c.n {
                 let idx = if i % 8 == 7 { [IdxMode::Natural, IdxMode::Permuted, IdxMode::Sparse][(i / 8) % 3] } else { IdxMode::None };
                 let ho = HeaderOpts { fileformat: None, max_samples: 12, idx, model: if i % 5 == 0 { Model::Common } else { Model::Full }, extras: true, min_contig_len: None, v45_numbers: true };
-                let hd = gen_header(&mut rng, &ho);
+                let mut hd = gen_header(&mut rng, &ho);
+                if i % 2 == 0 {
+                    genvcf::add_other_line_variants(&mut Rng::new(c.seed, 0xC09, 1000 + i as u64), &mut hd);
+                }
                 out.evaluations += 1;
                 check_header(&hd, &mut out);
                 let shape = format!("hdr|v{}.{}|i{}|f{}|fl{}|a{}|c{}|o{}|s{}|idx{:?}", hd.fileformat.0, hd.fileformat.1, hd.infos.len().min(12), hd.formats.len().min(10), hd.filters.len(), hd.alts.len().min(3), hd.contigs.len().min(4), hd.others.len().min(4), hd.samples.len().min(5), idx);
@@ -978,6 +1078,10 @@ fn main() {
         rep.floor("info Number x Type classes covered", combos as u64, 25);
         let fcombos: usize = genvcf::format_combos(false).iter().map(|(n, t)| format!("format[{}x{}]", n.class(), t.text())).collect::<BTreeSet<_>>().iter().filter(|k| get(k) > 0).count();
         rep.floor("format Number x Type classes covered", fcombos as u64, 24);
+        for k in ["headers_other_unstructured_equal_copies[2]", "headers_other_unstructured_equal_copies[3+]", "headers_other_unstructured_equal_copies[adjacent]", "headers_other_unstructured_equal_copies[separated]", "headers_other_unstructured_same_key_distinct_values", "headers_other_structured_equal_fields"] {
+            rep.floor(k, get(k), 50);
+        }
+        rep.floor("headers_write_parse_write", get("headers_write_parse_write"), get("headers") * 9 / 10);
         for minor in 2..=5 {
             for k in ["gt_mixed_separators", "gt_last_phased_earlier_unphased", "gt_last_unphased_earlier_phased"] {
                 let k = format!("{k}[4.{minor}]");
